@@ -495,7 +495,8 @@ def parse_mir(text):
             order.append(f)
         else:
             pm = re.match(r'(.+::promoted\[\d+\])', header)
-            name = pm.group(1) if pm else header.split(': ')[0]
+            # `path::<impl at file.rs:35:1: 37:50>::NAME: Type`: the name ends at the first ': ' that is not inside a span
+            name = pm.group(1) if pm else re.split(r': (?=\D)', header, maxsplit=1)[0]
             f = Fn(name, header, [], header[len(name) + 2:], blocks, locals_, raw_blocks)
             consts.setdefault(name, []).append(f)
             order.append(f)
